@@ -1,7 +1,6 @@
 package pongo2
 
 import (
-	"errors"
 	"fmt"
 	"reflect"
 	"strconv"
@@ -249,19 +248,15 @@ func (vr *variableResolver) resolve(ctx *ExecutionContext) (*Value, error) {
 	if len(vr.parts) > 0 && vr.parts[0].typ == varTypeArray {
 		items := make([]any, 0)
 		for _, part := range vr.parts {
-			switch v := part.subscript.(type) {
-			case *nodeFilteredVariable:
-				item, err := v.resolver.Evaluate(ctx)
-				if err != nil {
-					return nil, err
-				}
-
-				// Store the underlying value; a wrapped *Value would hide the
-				// item's kind (and therefore e.g. skip autoescaping of strings).
-				items = append(items, item.Interface())
-			default:
-				return nil, errors.New("unknown variable type is given")
+			// An item can be any expression (including filters applied to it)
+			item, err := part.subscript.Evaluate(ctx)
+			if err != nil {
+				return nil, err
 			}
+
+			// Store the underlying value; a wrapped *Value would hide the
+			// item's kind (and therefore e.g. skip autoescaping of strings).
+			items = append(items, item.Interface())
 		}
 
 		// The array is not a safe value: its items (e.g. strings from the
